@@ -73,4 +73,5 @@ class Prop(PropBase):
                 data = G.malformed(rng)
                 tag = "random:malformed"
             cs.append(Case("I " + G.chunkings(rng, data, ("whole", "random")[i % 2]), cfgs=["C20"], tag=tag))
+        cs += G.numeric_sweep("C20")
         return cs
